@@ -329,8 +329,8 @@ theorem stepWorld_okJ {s : Sim} (hI : SInvJ s) (op : Op) (hop : ∀ k, op ≠ .u
         cases hf : List.find? (fun x => decide (x.key = k)) s.cur.jobs with
         | none => rw [hf] at hk; cases hk
         | some j => rw [hf] at hn; cases hn
-  | metric t text key =>
-    have : (stepWorld s (.metric t text key)).1.jobs = s.cur.jobs := by simp only [stepWorld]; split <;> rfl
+  | metric t text key nm =>
+    have : (stepWorld s (.metric t text key nm)).1.jobs = s.cur.jobs := by simp only [stepWorld]; split <;> rfl
     exact ⟨⟨t1, t2, (same this).2⟩, t3, (same this).1⟩
   | earlyStop k' =>
     have : (stepWorld s (.earlyStop k')).1.jobs = s.cur.jobs := by
